@@ -241,6 +241,13 @@ func c09hist(c *Ctx) {
 			p.as = append(p.as, cfgAttr)
 			c.R.Add("probes_with_an_application_owned_attribute_that_resolves_itself", 1)
 		}
+		if p.as != nil && r.P(30) {
+			// a value that is a map (request headers, labels): Go walks a map in a different order every time, a record
+			// does not
+			p.as = append(p.as, slog.NewAttr("zzmap", map[string]any{"alpha": 1, "beta": "x", "gamma": true, "delta": 2.5, "epsilon": []int{1, 2}}),
+				slog.NewAttr("zzmap2", map[string]string{"k1": "v1", "k2": "v2", "k3": "v3", "k4": "v4"}))
+			c.R.Add("probes_with_map_values", 1)
+		}
 		setCfg := func(v int) {
 			if cfg != nil {
 				*cfg = v
